@@ -420,6 +420,8 @@ def materialise(ent):
                 out[st] = [np.float64(x) for x in vals]
             elif kind == "ndarray":
                 out[st] = np.array(vals, dtype=float)
+            elif kind == "intarr":
+                out[st] = np.array(vals, dtype=int)
             else:
                 out[st] = [float(x) for x in vals]
         else:
